@@ -31,6 +31,18 @@ extern "C" __attribute__((used, visibility("default"))) const char* __ubsan_defa
 }
 #endif
 
+#if defined(SIM_TSAN)
+// libstdc++'s std::ctype<char>::narrow()/widen() fill a per-facet cache lazily and without synchronisation
+// (GCC PR 77704: every thread writes the same value).  The racing accesses are inside libstdc++, on a
+// libstdc++ global, reached here through std::regex construction; they say nothing about jsoncons.
+extern "C" __attribute__((used, visibility("default"))) const char* __tsan_default_suppressions() {
+    return "race:std::ctype<char>::narrow\nrace:std::ctype<char>::widen\nrace:std::ctype<char>::_M_narrow_init\nrace:std::ctype<char>::_M_widen_init\n";
+}
+extern "C" __attribute__((used, visibility("default"))) const char* __tsan_default_options() {
+    return "halt_on_error=1:exitcode=66:second_deadlock_stack=1:report_signal_unsafe=0:history_size=4";
+}
+#endif
+
 namespace sim {
 
 static uint64_t g_idx = 0;
